@@ -22,6 +22,7 @@ KNOWN_FILE = os.path.join(HERE, "normalise_known.json")
 
 
 def load_known() -> set:
+    """keys of the private helpers of the validated tree (+ `all:<key>` for every function, public ones included)"""
     try:
         return set(json.load(open(KNOWN_FILE)))
     except (OSError, ValueError):
@@ -47,6 +48,7 @@ def helper_keys(modname: str, tree: ast.Module):
     for cls, f in _defs(tree):
         if _private(f.name):
             yield "%s:%s%s" % (modname, (cls + ".") if cls else "", f.name)
+        yield "all:%s:%s%s" % (modname, (cls + ".") if cls else "", f.name)
 
 
 def _contains(node, types) -> bool:
@@ -184,8 +186,16 @@ class _Inliner:
         out = {}
         for cls, f in _defs(self.tree):
             key = "%s:%s%s" % (self.modname, (cls + ".") if cls else "", f.name)
-            if not _private(f.name) or key in self.known:
-                continue
+            if _private(f.name):
+                if key in self.known:
+                    continue
+            else:
+                # a new public function is spliced back only when it is one `return <expr>` (a named predicate / accessor);
+                # its definition stays (other modules may use it)
+                body_ = [st for st in f.body if not (isinstance(st, ast.Expr) and isinstance(st.value, ast.Constant))]
+                if "all:" + key in self.known or not any(k.startswith("all:") for k in self.known) or f.name.startswith("__") \
+                        or not (len(body_) == 1 and isinstance(body_[0], ast.Return) and body_[0].value is not None):
+                    continue
             decos = [ast.unparse(d) for d in f.decorator_list]
             if any(d not in ("staticmethod",) for d in decos):
                 continue
@@ -259,7 +269,7 @@ class _Inliner:
                 self.done.append("%s%s into %s" % ((cls + ".") if cls else "", name, caller.name))
             # a helper none of whose calls is left is dead: drop its definition, so that no rule analyses it on its own
             left = sum(1 for n in ast.walk(self.tree) if isinstance(n, ast.Call) and self._is_call_of(n, cls, name))
-            if ok_all and left == 0:
+            if ok_all and left == 0 and _private(name):
                 holder = self.tree if cls is None else next((c for c in self.tree.body if isinstance(c, ast.ClassDef) and c.name == cls), None)
                 if holder is not None and callee in holder.body:
                     holder.body.remove(callee)
@@ -455,6 +465,52 @@ def _renumber(fn: ast.FunctionDef):
     fn._src_line = src
 
 
+def _is_call_attr(e, attr):
+    return isinstance(e, ast.Call) and isinstance(e.func, ast.Attribute) and e.func.attr == attr
+
+
+def _canon_with(stmts, done, where):
+    """x = <expr>; x.__enter__(); try: BODY finally: x.__exit__(None, None, None)   ==>   with <expr> as x: BODY
+    (the context-manager protocol written out by hand - only when __exit__ gets three None and nothing else is in the finally)"""
+    out = []
+    i = 0
+    while i < len(stmts):
+        s = stmts[i]
+        # recurse into nested blocks first
+        for fld in ("body", "orelse", "finalbody"):
+            blk = getattr(s, fld, None)
+            if isinstance(blk, list) and blk and isinstance(blk[0], ast.stmt) and not isinstance(s, (ast.FunctionDef, ast.AsyncFunctionDef, ast.ClassDef)):
+                setattr(s, fld, _canon_with(blk, done, where))
+        if isinstance(s, ast.Try):
+            for h in s.handlers:
+                h.body = _canon_with(h.body, done, where)
+        if isinstance(s, ast.Expr) and _is_call_attr(s.value, "__enter__") and not s.value.args and i + 1 < len(stmts) and isinstance(stmts[i + 1], ast.Try):
+            tr = stmts[i + 1]
+            cm = s.value.func.value
+            fin = tr.finalbody
+            if not tr.handlers and not tr.orelse and len(fin) == 1 and isinstance(fin[0], ast.Expr) and _is_call_attr(fin[0].value, "__exit__") \
+                    and ast.unparse(fin[0].value.func.value) == ast.unparse(cm) and len(fin[0].value.args) == 3 \
+                    and all(isinstance(a, ast.Constant) and a.value is None for a in fin[0].value.args):
+                ctx_expr, var = cm, None
+                # preceded by `name = <expr>` (or `name: T = <expr>`) for the same name: with <expr> as name
+                if out and isinstance(cm, ast.Name):
+                    prev = out[-1]
+                    tgt = prev.targets[0] if isinstance(prev, ast.Assign) and len(prev.targets) == 1 else (prev.target if isinstance(prev, ast.AnnAssign) and prev.value is not None else None)
+                    if isinstance(tgt, ast.Name) and tgt.id == cm.id:
+                        ctx_expr, var = prev.value, ast.Name(id=cm.id, ctx=ast.Store())
+                        out.pop()
+                w = ast.With(items=[ast.withitem(context_expr=ctx_expr, optional_vars=var)], body=_canon_with(tr.body, done, where))
+                ast.copy_location(w, s)
+                ast.fix_missing_locations(w)
+                out.append(w)
+                done.append("%s: explicit __enter__/__exit__ of `%s` read as a with block" % (where, ast.unparse(cm)))
+                i += 2
+                continue
+        out.append(s)
+        i += 1
+    return out
+
+
 def undo_extractions(modules: Dict[str, object], known: Optional[set] = None) -> List[str]:
     """modules: name -> object with `.tree` (ast.Module). Returns a description of what was spliced back."""
     known = load_known() if known is None else known
@@ -463,6 +519,11 @@ def undo_extractions(modules: Dict[str, object], known: Optional[set] = None) ->
     done = []
     for name in sorted(modules):
         m = modules[name]
+        for cls_, f_ in _defs(m.tree):
+            n0 = len(done)
+            f_.body = _canon_with(f_.body, done, "%s:%s" % (name, f_.name))
+            if len(done) > n0:
+                _renumber(f_)
         for _ in range(3):
             inl = _Inliner(name, m.tree, known)
             inl.run()
